@@ -79,6 +79,24 @@ Proof.
   split; [rewrite G1; exact HSC|]. split; [congruence | exact G9].
 Qed.
 
+(* ... and the search can go on: after a failed evaluation the state still satisfies the whole invariant (the recalculation flag is
+   raised, so the queue is rebuilt from all intervals before the next selection); hence every later trial is again placed by the
+   decision rule (iteration_inv applies to the state after the failure) *)
+Lemma iteration_raised_recalc s s' x : iteration o p s Raised = (s', ObjectiveRaised x) -> recalc s' = true.
+Proof.
+  unfold iteration. intros H.
+  repeat match type of H with
+         | context [match ?e with _ => _ end] => let E := fresh "E" in destruct e eqn:E; try discriminate H
+         end; injection H as <- _; reflexivity.
+Qed.
+
+Theorem failure_keeps_invariant s s' x : AllInv o p s -> iteration o p s Raised = (s', ObjectiveRaised x) -> AllInv o p s'.
+Proof.
+  intros A H. destruct (iteration_raised s s' _ A H) as (R & B & M & _ & _ & _ & _ & _ & F & _).
+  split; [exact F|]. split; [exact R|]. split; [exact B|]. split; [exact M|].
+  intros C. rewrite (iteration_raised_recalc s s' x H) in C. discriminate C.
+Qed.
+
 Theorem failure_contained k s xs : (1 <= k)%nat -> steps o p ans k (init_st o) = Some (s, xs) ->
   stop o p s = false -> ans (calls s) = Raised ->
   exists s', Solves o p ans s s' [] true /\
